@@ -1053,8 +1053,12 @@ func (p *Prov) justify1(s *Sink) string {
 	}
 	// J11: the BSON binary subtype - last path element "subType" directly under "$binary"
 	// (an operational parameter the property names; decided on key context alone)
-	if has(func(a Atom) bool { return a.Kind == "strconst" && a.Pol && a.Name == "subType" && pathPosition(a.X) == "last" }) &&
-		has(func(a Atom) bool { return a.Kind == "strconst" && a.Pol && a.Name == "$binary" && pathPosition(a.X) == "second-to-last" }) {
+	if has(func(a Atom) bool {
+		return a.Kind == "strconst" && a.Pol && a.Name == "subType" && pathPosition(a.X) == "last"
+	}) &&
+		has(func(a Atom) bool {
+			return a.Kind == "strconst" && a.Pol && a.Name == "$binary" && pathPosition(a.X) == "second-to-last"
+		}) {
 		return "J11:binary-subtype"
 	}
 	// J7: selective mode
